@@ -4,6 +4,7 @@
 pub mod engine;
 pub mod lab;
 pub mod refmodel;
+pub mod stream;
 pub mod tape;
 
 /// Registry of all properties.
@@ -12,6 +13,10 @@ pub fn property(id: &str) -> Option<Box<dyn engine::Property>> {
         "C02" | "C03" | "C04" | "C05" | "C06" | "C07" | "C08" | "C09" | "C10" => {
             let id: &'static str = Box::leak(id.to_string().into_boxed_str());
             Some(Box::new(lab::props::LabProp { id }))
+        }
+        "C01" | "C11" | "C12" | "C13" => {
+            let id: &'static str = Box::leak(id.to_string().into_boxed_str());
+            Some(Box::new(stream::props::StreamProp { id }))
         }
         _ => None,
     }
